@@ -19,7 +19,7 @@ func c03Universe(which int) []TNode {
 	common := []string{".git/x", ".terraform/y", ".terraform/modules/m", "sub/.git/x", "sub/.terraform/modules/m", "sub/.terraform/z", "sub/a"}
 	var files []string
 	if which == 1 {
-		files = []string{"a/a", "a/b", "a/ab/a", "a/ab/b", "ab/a", "ab/b/a", "ab/b/ab", "b", "aab", "a+b", "a.b", "axb", "(a)", "é", "a/é", "A", "B/a"}
+		files = []string{"a/a", "a/b", "a/ab/a", "a/ab/b", "ab/a", "ab/b/a", "ab/b/ab", "b", "aab", "a+b", "a.b", "axb", "(a)", "é", "a/é", "A", "B/a", "a/n\nl", "n\nl/b"}
 	} else {
 		files = []string{"a", "ab", "b/a", "b/ab", "b/b/a", "aab/b/a", "aab/a", "a+b/a", "a.b/b", "axb/a", "axb/b/ab", "é/a", "b/é", "A/b"}
 	}
